@@ -27,6 +27,7 @@ import (
 	"strconv"
 	"strings"
 	"sync"
+	"time"
 
 	vegeta "github.com/tsenart/vegeta/v12/lib"
 	"verifharness/internal/ev"
@@ -90,7 +91,10 @@ func c08Dataset(r *rand.Rand, maxN, bigMax int) (recs []vegeta.Result, shape str
 		recs[i] = x
 		return err
 	}
-	switch r.Intn(5) {
+	switch r.Intn(6) {
+	case 5: // a first record stamped before 1970: negative Unix time, the CSV stream starts with '-'
+		shape = "first-before-1970"
+		recs[0].Timestamp = time.Unix(-1-r.Int63n(2_000_000_000), r.Int63n(1_000_000_000)).UTC()
 	case 0:
 		shape = "small"
 	case 1: // minimal first record
@@ -485,13 +489,17 @@ func c08RunChain(run *ev.Run, cc codecCounts, bin, base, id string, recs []veget
 			fmt.Sprintf("vegeta encode chain %s -> %s on %d records: step %d (%s -> %s): %s", source, strings.Join(chain, " -> "), len(recs), step+1, from, to, m),
 			c08Witness{Kind: "chain", Class: class, Message: m, At: at, Diffs: diffs, Records: codecDumpAll(recs), Source: source, Chain: chain})
 	}
-	files := []string{filepath.Join(dir, "f0."+source)}
+	// file names say nothing about the encoding: half of the files carry the extension of another one
+	ext := func(i int, enc string) string {
+		return []string{enc, "bin", enc, "json", enc, "csv", enc, "gob", enc, "dat"}[(len(recs)*7+i*3)%10]
+	}
+	files := []string{filepath.Join(dir, "f0."+ext(0, source))}
 	if err := codecWriteFile(files[0], source, recs); err != nil {
 		run.Inconclusive("C08 could not build an input file: " + err.Error())
 		return nil
 	}
 	for i, to := range chain {
-		out := filepath.Join(dir, fmt.Sprintf("f%d.%s", i+1, to))
+		out := filepath.Join(dir, fmt.Sprintf("f%d.%s", i+1, ext(i+1, to)))
 		if (len(recs)+i)%2 == 0 {
 			// the output path already holds an older, longer result file in the same encoding: the command
 			// must replace it, not write over its beginning
